@@ -135,18 +135,35 @@ func (r *runner) starveSeq() {
 			r.end()
 			return
 		}
-		r.log(vt.Ev{"ev": "app", "i": i + 1})
 		n, d := r.e.reqCount(), r.appDone()
 		c := r.e.start(it.Lab, func() error { return act.f(r.ctx, r.e) })
 		r.mu.Lock()
 		r.calls = append(r.calls, c)
 		r.mu.Unlock()
+		// "loc": the local state of the extension the driver OBSERVES after the action ("?" =
+		// no means to observe it); the trace specification compares it with the state the run
+		// protocol derives, so that a scenario which did not reach the state the generator
+		// meant is noticed
+		loc := "?"
 		if act.sends {
+			r.log(vt.Ev{"ev": "app", "i": i + 1, "act": it.Lab, "loc": loc})
 			// the next item is sent after the application's request is on the wire
 			if w := r.e.waitReq(n, d, reqWait); w == "timeout" {
 				r.detail["note"] = "app action " + it.Lab + " sent no request"
 			}
+			continue
 		}
+		// an action that sends nothing (it only changes the local state of the extension) has
+		// returned before the peer's next stanza is fed: the stanza meets that state
+		select {
+		case <-c.done:
+			if act.loc != nil {
+				loc = act.loc(c.out == "value")
+			}
+		case <-time.After(reqWait):
+			r.detail["note"] = "app action " + it.Lab + " did not return"
+		}
+		r.log(vt.Ev{"ev": "app", "i": i + 1, "act": it.Lab, "loc": loc})
 	}
 }
 
@@ -171,7 +188,7 @@ func (r *runner) starveReply() {
 			r.end()
 			return
 		}
-		r.log(vt.Ev{"ev": "app", "i": 0})
+		r.log(vt.Ev{"ev": "app", "i": 0, "act": "helper", "loc": "?"})
 		c := r.e.start(r.sc.Helper, func() error { return h(r.ctx, r.e) })
 		r.mu.Lock()
 		r.calls = append(r.calls, c)
